@@ -32,5 +32,6 @@ def run(ctx, rep):
     rep.run(RF.rule_render_once_per_child, ctx, rep, "Z6")
     rep.run(RF.rule_no_reparse_in_actions, ctx, rep, "Z7")
     rep.run(RF.rule_no_superlinear_regex, ctx, rep, "Z8")
+    rep.run(RF.rule_recursion_cycles_once_per_child, ctx, rep, "Z9")
     rep.require_min("Z3", 10)
     rep.run(RF.rule_locals_defined, ctx, rep, "U1", packages=("gtwrap/interface_parser",), min_functions=3)
